@@ -9,6 +9,7 @@ from lbry.wallet.ledger import Ledger
 from lbry.wallet.transaction import Transaction, Output, Input
 from harness.C03 import make_utxo, StubRandom, StubChain, VM_REF, CHANGE_ADDRESS
 from symvm.sched import Sched
+from harness import spend_sql
 
 LEVEL_TEXT = ('Bounded model checking over schedules: n concurrent builders run the real reservation code; every await of '
               'a database stub is a scheduling point and the choice of the next runnable coroutine is a solver-chosen '
@@ -213,10 +214,34 @@ class _Patch:
 
 def sym_setup(vm, job):
     coinselection.Random = StubRandom
+    if job.get('family') == 'sql':
+        from harness import C09
+        C09.sym_setup(vm, job)
+        vm.register_helper('reserved_rows', spend_sql.reserved_rows)
+
+
+class _Both:
+    def __init__(self, *ctxs):
+        self.ctxs = ctxs
+
+    def __enter__(self):
+        for c in self.ctxs:
+            c.__enter__()
+
+    def __exit__(self, *a):
+        for c in reversed(self.ctxs):
+            c.__exit__(*a)
 
 
 def native_setup(nvm, job):
+    if job.get('family') == 'sql':
+        from harness import C09
+        return _Both(_Patch(), C09.native_setup(nvm, job))
     return _Patch()
+
+
+def spend_sql_job(vm, n_utxo, strategies):
+    return spend_sql.spend(vm, n_utxo, strategies)
 
 
 def jobs(tier):
@@ -247,6 +272,14 @@ def jobs(tier):
                         args=(nb, 2, None, None, True), loop_bound=300, max_depth=60, cost=1000 * nb,
                         bounds=dict(builders=nb, utxos='2, amounts 0..1e9', outputs='none (several selection rounds per build)',
                                     schedule='every interleaving at db awaits'), must_reach=('ok',)))
+    for strategies, n_utxo in (((('sqlite',), 3), ((None,), 2)) if tier == 'quick' else tuple(((x,), 3) for x in spend_sql.STRATEGIES)):
+        sname = '+'.join(str(x or 'default') for x in strategies)
+        out.append(dict(name=f'real-db-2builds-{n_utxo}utxo-{sname}', family='sql', fn='spend_sql_job', args=(n_utxo, strategies), loop_bound=2000, max_depth=80,
+                        cost=3000, bounds=dict(database='real sqlite3, real schema, filled by the real sync code', utxos=n_utxo,
+                                               utxo_amounts=str(spend_sql.UTXO_CATALOGUE), payments=str(spend_sql.PAY_CATALOGUE), strategy=sname,
+                                               builds='2 in sequence, the first still in flight; optionally the funding transactions confirm '
+                                               'and are saved again in between; then the first is abandoned'),
+                        must_reach=('ok', 'ok-both-funded')))
     return out
 
 
